@@ -117,13 +117,14 @@ int g_mwait_calls;              /* MutexAcquisitionImpl::wait_for */
  * nullptr, so it must not be exiting/dying (ghost field ActorImpl::vf_dying decides what unregister_first_simcall
  * returns) — see level_note                                                                                         */
 #define WAITER_OK(self) (NOMC((self)->issuer_) || !(self)->issuer_->vf_dying)
-/* assumed link with ActivityImpl / ActorImpl (assumed callees): a waiter that sits in its issuer's waiting_synchros_
- * has exactly one registered simcall; its timer, if any, is the one sleep() handed out; no MC timeout is pending     */
+#define WAITER_OK_A(a) (g_cobs[a].type_ == Type__CONDVAR_NOMC || !g_act[a].vf_dying)
+#define WAITERS_OK ALLACT(WAITER_OK_A) /* the same for every actor, without pointer chasing */
+/* assumed link with ActivityImpl / ActorImpl (assumed callees): a queued waiter has exactly one registered simcall
+ * (its issuer is blocked on it: acquire_async and wait_for happen in the same simcall outside MC mode); its timer, if
+ * any, is the one sleep() handed out; no MC timeout is pending                                                        */
 #define A(k) g_acq[Qh + (k)]
-#define WS(k) (A(k).issuer_->waiting_synchros_)
-#define NOT_WAITED(k) ((WS(k).n <= 0 || WS(k).d[0] != &ACT(&A(k))) && (WS(k).n <= 1 || WS(k).d[1] != &ACT(&A(k))))
 #define LINK(k)                                                                                                        \
-  (!((k) < Qn) || ((SIMCALLS_N(&A(k)) == 1 || NOT_WAITED(k)) && !A(k).mc_timeout_ && WAITER_OK(&A(k)) &&               \
+  (!((k) < Qn) || (SIMCALLS_N(&A(k)) == 1 && !A(k).mc_timeout_ &&                                                      \
                    (ACT(&A(k)).model_action_ == NULL || ACT(&A(k)).model_action_ == TIMER)))
 #define COUNTERS_OK                                                                                                    \
   (0 <= g_answered && g_answered < 1000 && 0 <= g_unreg_calls && g_unreg_calls < 1000 && 0 <= g_unrefs &&              \
@@ -335,9 +336,11 @@ void ConditionVariableAcquisitionImpl__finish(struct ConditionVariableAcquisitio
  * assignable (the signal is lost)                                                                                   */
 void ConditionVariableImpl__signal(struct ConditionVariableImpl* self)
     __CPROVER_requires(self == &g_cv && WF_CV && WF_ACTORS && vf_exc == 0 && g_result_set == 0 && COUNTERS_OK &&
-                       ALLQ(LINK) && (g_m.owner_ == NULL || IS_ACTOR(g_m.owner_)))
+                       ALLQ(LINK) && WAITERS_OK && (g_m.owner_ == NULL || IS_ACTOR(g_m.owner_)))
     __CPROVER_assigns(Qn > 0 : vf_exc, g_cv.ongoing_acquisitions_.h, g_cv.ongoing_acquisitions_.n,
-                      __CPROVER_object_whole(g_acq), g_answered, g_answered_actor, g_unrefs, g_unreg_calls,
+                      g_acq[g_cv.ongoing_acquisitions_.h].granted_,
+                      ACT(&g_acq[g_cv.ongoing_acquisitions_.h]).model_action_,
+                      ACT(&g_acq[g_cv.ongoing_acquisitions_.h]).state_, g_answered, g_answered_actor, g_unrefs, g_unreg_calls,
                       g_unreg_ret, g_m.owner_, g_lock_calls, g_lock_issuer, g_mwait_calls)
     __CPROVER_ensures(vf_exc == 0)
     __CPROVER_ensures(oldQn == 0 || (g_acq[oldQh].granted_ && Qh == oldQh + 1 && Qn == oldQn - 1))
@@ -351,8 +354,8 @@ void ConditionVariableImpl__signal(struct ConditionVariableImpl* self)
     __CPROVER_ensures(g_result_set == 0) /*@ signal_never_reports_timeout */
     __CPROVER_ensures(g_answered == __CPROVER_old(g_answered) ||
                       (oldQn != 0 && g_answered == __CPROVER_old(g_answered) + 1 &&
-                       g_answered_actor == __CPROVER_old(g_acq[g_cv.ongoing_acquisitions_.h].issuer_) &&
-                       (!NOMC(g_answered_actor) || g_m.owner_ == g_answered_actor)))
+                       g_answered_actor == g_acq[oldQh].issuer_ &&
+                       (!NOMC(g_acq[oldQh].issuer_) || g_m.owner_ == g_answered_actor)))
     /*@ signalled_waiter_returns_only_as_owner_of_its_mutex */
     __CPROVER_ensures(g_answered >= __CPROVER_old(g_answered) && g_answered <= __CPROVER_old(g_answered) + 1 &&
                        g_unreg_calls >= __CPROVER_old(g_unreg_calls) && g_unreg_calls <= __CPROVER_old(g_unreg_calls) + 1 &&
@@ -365,7 +368,7 @@ void ConditionVariableImpl__signal(struct ConditionVariableImpl* self)
 void ConditionVariableImpl__broadcast(struct ConditionVariableImpl* self)
     __CPROVER_requires(self == &g_cv && WF_CV && WF_ACTORS && vf_exc == 0 && g_result_set == 0 && g_answered == 0 &&
                        g_unreg_calls == 0 && g_unrefs == 0 && g_lock_calls == 0 && g_mwait_calls == 0 && ALLQ(LINK) &&
-                       (g_m.owner_ == NULL || IS_ACTOR(g_m.owner_)))
+                       WAITERS_OK && (g_m.owner_ == NULL || IS_ACTOR(g_m.owner_)))
     __CPROVER_assigns(vf_exc, g_cv.ongoing_acquisitions_.h, g_cv.ongoing_acquisitions_.n, __CPROVER_object_whole(g_acq),
                       g_answered, g_answered_actor, g_unrefs, g_unreg_calls, g_unreg_ret, g_m.owner_, g_lock_calls,
                       g_lock_issuer, g_mwait_calls)
@@ -497,6 +500,7 @@ static void setup(void)
   g_lock_calls                   = 0;
   g_mwait_calls                  = 0;
   __CPROVER_assume(gk < QCAP);
+  __CPROVER_assume(gj < QSZ);
 }
 
 static struct ConditionVariableAcquisitionImpl* pick_acq(void)
